@@ -67,10 +67,28 @@ def sens (c impl : Json) : P Json := do
     return verdict false s!"element hashes changed from {hs} to {hs'} but the table fingerprint stayed {tb}" (toJson (tModelB == tModelA))
   return verdict true ""
 
+/-- a table of tables: the outer fingerprint is the rolling hash of the inner tables' fingerprints; a write into an
+    inner column (through the live inner table) must show in the outer table -/
+def nested (c impl : Json) : P Json := do
+  let hs ← listF asInt c "hs"
+  let hs' ← listF asInt c "hs2"
+  let other ← listF asInt c "other"
+  let ob ← intF impl "o_before"; let oa ← intF impl "o_after"; let rebuilt ← intF impl "o_rebuilt"
+  let mB := FP.fpVec [FP.fpTab [hs], FP.fpTab [other]]
+  let mA := FP.fpVec [FP.fpTab [hs'], FP.fpTab [other]]
+  if ob != mB || oa != mA then
+    return verdict false s!"fingerprints of the table of tables ({ob}, {oa}) differ from the rolling hash of its contents ({mB}, {mA})"
+  if oa != rebuilt then
+    return verdict false s!"fingerprint {oa} of the written table of tables differs from a freshly built equal one ({rebuilt})"
+  if hs != hs' && oa == ob then
+    return verdict false s!"element hashes of an inner column changed from {hs} to {hs'} but the outer fingerprint stayed {ob}" (toJson (mB == mA))
+  return verdict true ""
+
 def handle (fam : String) (c impl : Json) : P Json :=
   match fam with
   | "history" => history c
   | "sens" => sens c impl
+  | "nested" => nested c impl
   | _ => .error s!"unknown family {fam}"
 
 end Serif.Drive.C16
